@@ -366,6 +366,7 @@ fn check_ws(live: &Live, rt: &tokio::runtime::Runtime, c: &WsCase, st: &mut Stat
                 resp.header("sec-websocket-accept"),
                 want
             );
+            ensure!(resp.header("x-request-id").map(|i| !i.is_empty()).unwrap_or(false), "request-id-missing-on-101", "the 101 response carries no x-request-id");
             ensure!(
                 resp.header("upgrade").map(|u| u.eq_ignore_ascii_case("websocket")).unwrap_or(false)
                     && resp.header("connection").map(|u| u.to_ascii_lowercase().contains("upgrade")).unwrap_or(false),
